@@ -38,6 +38,8 @@ type Prog struct {
 	inScope map[*ssa.Function]bool
 	// All functions of the whole program (for stores to goat-owned fields from out of scope callers: none expected).
 	nPackages int
+	// Renames: unexported names spelt back to the frozen inventory before analysis (rename.go)
+	Renames []string
 
 	// lazily built engines
 	callers   map[*ssa.Function][]callSite // resolved in-scope call sites per callee
@@ -68,6 +70,8 @@ func broken(format string, a ...any) {
 }
 
 var loadMinFuncs = 100
+
+var renameNormalisation = true
 
 func loadProg(dir string, tags string, goarch string) *Prog {
 	env := append(os.Environ(), "GOFLAGS=-mod=mod", "GOPROXY=off", "GOSUMDB=off", "GOTOOLCHAIN=local", "GOWORK=off")
@@ -102,9 +106,39 @@ func loadProg(dir string, tags string, goarch string) *Prog {
 	if nerr > 0 {
 		broken("%d load/type errors in %s", nerr, modPath)
 	}
+	// rename normalisation (rename.go): spell renamed unexported names back to the frozen ones in an overlay
+	var renames []string
+	if renameNormalisation && os.Getenv("GOATCHECK_NO_RENAME") == "" && len(pkgs) > 0 {
+		if pairs := matchRenames(frozenInventory(), inventoryOf(pkgs)); len(pairs) > 0 {
+			ov, err := renameOverlay(pkgs, pkgs[0].Fset, pairs)
+			if err == nil {
+				cfg2 := *cfg
+				cfg2.Overlay = ov
+				pkgs2, err2 := packages.Load(&cfg2, "./...")
+				bad := err2 != nil || len(pkgs2) == 0
+				if !bad {
+					packages.Visit(pkgs2, nil, func(p *packages.Package) {
+						if strings.HasPrefix(p.PkgPath, modPath) && len(p.Errors) > 0 {
+							bad = true
+						}
+					})
+				}
+				if !bad {
+					pkgs = pkgs2
+					for _, pr := range pairs {
+						renames = append(renames, pr.String())
+					}
+					sort.Strings(renames)
+				} else {
+					fmt.Fprintf(os.Stderr, "rename normalisation abandoned (overlay does not type-check); continuing with the tree as written\n")
+				}
+			}
+		}
+	}
 	prog, spkgs := ssautil.AllPackages(pkgs, ssa.InstantiateGenerics)
 	prog.Build()
 	p := &Prog{Dir: dir, Fset: prog.Fset, Pkgs: pkgs, SSA: prog, byPkg: map[string]*ssa.Package{}, inScope: map[*ssa.Function]bool{}}
+	p.Renames = renames
 	for _, sp := range spkgs {
 		if sp != nil {
 			p.byPkg[sp.Pkg.Path()] = sp
